@@ -154,7 +154,13 @@ class VSocket(object):
         if self.closed:
             raise OSError(errno.EBADF, 'Bad file descriptor')
         data = bytes(data)
-        if self.send_script is not None:
+        if getattr(RT, 'concurrent', False):
+            RT.yield_('ready')              # a preemption point before the bytes go out
+            if self.closed:
+                raise OSError(errno.EBADF, 'Bad file descriptor')
+        if getattr(RT, 'send_policy', None) is not None:
+            n = RT.send_policy(self, data)  # may raise
+        elif self.send_script is not None:
             n = self.send_script(data)      # may raise
         else:
             n = len(data)
@@ -237,6 +243,14 @@ class VPoll(object):
         if err is not None:
             RT.poll_error = None
             raise err
+        if getattr(RT, 'concurrent', False):
+            socks = [s for s in RT.sockets if s.fd in self.fds]
+            got = RT.poll_wait(socks, (timeout or 0) / 1000.0)
+            err = getattr(RT, 'poll_error', None)
+            if err is not None:
+                RT.poll_error = None
+                raise err
+            return [(s.fd, real_select.POLLIN) for s in got]
         ready = []
         for s in RT.sockets:
             if s.fd in self.fds and (s.readable):
@@ -261,6 +275,14 @@ class SelectFacade(object):
         if err is not None:
             RT.poll_error = None
             raise err
+        if getattr(RT, 'concurrent', False):
+            socks = [s for s in RT.sockets if s.fd in r]
+            got = RT.poll_wait(socks, timeout or 0)
+            err = getattr(RT, 'poll_error', None)
+            if err is not None:
+                RT.poll_error = None
+                raise err
+            return [s.fd for s in got], [], []
         ready = [fd for fd in r
                  for s in RT.sockets if s.fd == fd and s.readable]
         if not ready:
@@ -322,11 +344,26 @@ class VThread(object):
 
 
 class ThreadingFacade(object):
-    Lock = real_threading.Lock
-    RLock = real_threading.RLock
+    """Stands in for the `threading` module inside the library modules: the
+    sequential runtime keeps real locks and pumps the reader; the concurrent
+    runtime (harness/crt.py) supplies scheduler-aware objects."""
     Event = real_threading.Event
-    Timer = real_threading.Timer
-    Thread = VThread
+
+    @staticmethod
+    def Lock():
+        return RT.Lock() if getattr(RT, 'concurrent', False) else real_threading.Lock()
+
+    @staticmethod
+    def RLock():
+        return RT.RLock() if getattr(RT, 'concurrent', False) else real_threading.RLock()
+
+    @staticmethod
+    def Thread(*a, **k):
+        return RT.Thread(*a, **k) if getattr(RT, 'concurrent', False) else VThread(*a, **k)
+
+    @staticmethod
+    def Timer(*a, **k):
+        return RT.Timer(*a, **k) if getattr(RT, 'concurrent', False) else real_threading.Timer(*a, **k)
 
     def __getattr__(self, name):
         return getattr(real_threading, name)
@@ -388,7 +425,13 @@ def install():
     aconn.sleep = _vsleep
     aio.socket = SocketFacade
     aio.select = SelectFacade
-    aio.threading = ThreadingFacade()
+    import amqpstorm.heartbeat as ahb
+    tfac = ThreadingFacade()
+    aio.threading = tfac
+    arpc.threading = tfac
+    achan.threading = tfac
+    aconn.threading = tfac
+    ahb.threading = tfac
     _installed = True
 
 
